@@ -122,6 +122,22 @@ func runModel(m model) {
 			if writes == nil {
 				writes = []int{0}
 			}
+			// an object of the pool that can no longer be serialised after the
+			// operation (the curve code refuses it as invalid) was corrupted by it
+			if pz := lib.Try("c11/seq-inspect:"+m.name+":"+op.name, nil, func() {
+				for k := range pool {
+					for _, o := range pool[k] {
+						_ = m.kinds[k].ser(o)
+					}
+				}
+				for w := range slots {
+					_ = m.kinds[op.kinds[w]].ser(fresh[w])
+				}
+			}); pz != nil {
+				lib.Violation("C11:operand-changed:"+m.name+"."+op.name+":object-no-longer-valid", "TestVerifSeq",
+					lib.D("model", m.name, "op", desc, "aliased", aliased, "panic_when_serialising", pz.Value, "trace", trace))
+				break
+			}
 			written := map[[2]int]bool{}
 			for _, w := range writes {
 				written[[2]int{op.kinds[w], idx[w]}] = true
